@@ -38,7 +38,7 @@ Definition run_temps (chips : list kchip) (zones : list kzone) (fahr : bool) : j
 Definition readable_sensor (c : kchip) : bool :=
   is_present (kc_name c) && existsb (fun s => match spec_milli (ks_input s) with Some _ => true | None => false end) (kc_sensors c).
 Definition run_temps_coretemp (chips plat : list kchip) (zones : list kzone) (fahr : bool) : jv :=
-  let es := hwmon_entries chips ++ coretemp_names plat in
+  let es := hwmon_entries chips ++ hwmon_entries plat in
   let zs := map zone_entry zones in
   let all := chips ++ plat in
   JL [ JL [JL (map jv_tentry (hwmon_entries chips)); JL (map jv_zentry zs); JL (map jv_tentry (hwmon_entries plat))];
@@ -63,7 +63,7 @@ Definition run_fans (tagged : list (bool * kfanchip)) : jv :=
   let nested := map snd (filter (fun x => fst x) tagged) in
   let chips := map snd tagged in
   JL [ JL (map jv_fentry (fan_entries chips));
-       jv_outcome jv_fdict (sensors_fans_tree true (fan_entries direct) (fan_entries nested));
+       jv_outcome jv_fdict (sensors_fans true (fan_entries chips));
        (if forallb kfanchip_ok chips then
           JC "Val" [jv_fdict (present_names (map kfc_name chips) (fun n => spec_fans_of n chips))]
         else jnone);
